@@ -90,6 +90,44 @@ Section Tie.
     replace (Z.to_nat (Z.of_nat i + 1)) with (S i) by lia. reflexivity.
   Qed.
 
+  (* ---- the chain invariant under the GENERATED commit / discard_after, one step and every sequence of them *)
+  Theorem src_commit_keeps_chain (ls ls' : list oplog) c pls d : chain H0 ls ->
+    src_commit Ev Act Ck H T D Name H0 hashf ls c pls d = Some ls' -> chain H0 ls'.
+  Proof.
+    intros Hc E. rewrite src_commit_appends in E. inversion E; subst ls'; clear E.
+    apply chain_snoc; [exact Hc|]. cbn [Engine.lprev]. unfold Engine.last_hash. reflexivity.
+  Qed.
+
+  Theorem src_discard_after_keeps_chain (ls ls' : list oplog) (i : nat) : chain H0 ls ->
+    src_discard_after Ev Act Ck H T D Name ls (Z.of_nat i) = Some ls' -> chain H0 ls'.
+  Proof.
+    intros Hc E. rewrite src_discard_after_is_firstn in E. assert (E' : ls' = firstn (S i) ls) by congruence. rewrite E'.
+    apply (chain_firstn Ev Act Ck H T D Name hashf (S i)). exact Hc.
+  Qed.
+
+  Inductive hist_op : Type :=
+  | HCommit (c : cmd T Name) (pls : list playlog) (d : option D)
+  | HDiscard (i : nat).
+  Definition src_hist_step (ls : list oplog) (o : hist_op) : option (list oplog) :=
+    match o with
+    | HCommit c pls d => src_commit Ev Act Ck H T D Name H0 hashf ls c pls d
+    | HDiscard i => src_discard_after Ev Act Ck H T D Name ls (Z.of_nat i)
+    end.
+  Fixpoint src_hist_steps (ls : list oplog) (os : list hist_op) : option (list oplog) :=
+    match os with
+    | [] => Some ls
+    | o :: r => match src_hist_step ls o with Some ls' => src_hist_steps ls' r | None => None end
+    end.
+  Theorem src_hist_steps_keep_chain : forall os ls ls', chain H0 ls -> src_hist_steps ls os = Some ls' -> chain H0 ls'.
+  Proof.
+    induction os as [|o os IH]; intros ls ls' Hc E; cbn [src_hist_steps] in E.
+    - inversion E; subst; exact Hc.
+    - destruct (src_hist_step ls o) as [m|] eqn:Em; [|discriminate]. apply (IH m ls'); [|exact E].
+      destruct o as [c pls d|i]; cbn [src_hist_step] in Em.
+      + eapply src_commit_keeps_chain; eauto.
+      + eapply src_discard_after_keeps_chain; eauto.
+  Qed.
+
   (* ---- get_hash_index *)
   Notation ghi := (src_get_hash_index Ev Act Ck H T D Name hashf H_eqb).
 
@@ -262,6 +300,24 @@ Section Tie.
     intros [Hp _]. rewrite ghi_unfold. unfold py_enumerate. cbn [py_enumerate_from py_for loop_body].
     rewrite Hp, H_eqb_refl. reflexivity.
   Qed.
+  (* rollback lands on the tip: after the generated discard_after(i) the i-th log is the last one, and its hash is located at i
+     in the shortened history too (so a second rollback to the same hash changes nothing) *)
+  Theorem src_discard_after_lands_on_tip (ls ls' : list oplog) : chain H0 ls ->
+    forall i l, nth_error ls i = Some l ->
+      src_discard_after Ev Act Ck H T D Name ls (Z.of_nat i) = Some ls' ->
+      py_last ls' = Some l /\ length ls' = S i /\ ghi ls' (lhash l) = Some (Z.of_nat i) /\
+      src_discard_after Ev Act Ck H T D Name ls' (Z.of_nat i) = Some ls'.
+  Proof.
+    intros Hc i l Hi E. rewrite src_discard_after_is_firstn in E. assert (E' : ls' = firstn (S i) ls) by congruence. rewrite E'; clear E E' ls'.
+    destruct (nth_error_split ls i Hi) as [pre [post [Els Hlen]]]. subst ls.
+    assert (Ef : firstn (S i) (pre ++ l :: post) = pre ++ [l]).
+    { rewrite firstn_app. rewrite (firstn_all2 pre) by lia. replace (S i - length pre)%nat with 1%nat by lia. reflexivity. }
+    rewrite Ef. split; [apply py_last_app|]. split; [rewrite app_length; cbn [length]; lia|]. split.
+    - apply get_hash_index_locates.
+      + rewrite <- Ef. apply (chain_firstn Ev Act Ck H T D Name hashf (S i)). exact Hc.
+      + rewrite nth_error_app2 by lia. replace (i - length pre)%nat with 0%nat by lia. reflexivity.
+    - rewrite src_discard_after_is_firstn. f_equal. apply firstn_all2. rewrite app_length. cbn [length]. lia.
+  Qed.
 End Tie.
 
 (* non-vacuity: a concrete chained history (hashes = unary numerals, hash = successor of the previous hash, "" = 0) meets the
@@ -280,5 +336,13 @@ Section Example.
   Example example_answers :
     map (src_get_hash_index unit unit unit Hh unit unit unit hf Nat.eqb hist) [1; 2; 3; 7; 0]
     = [Some 0%Z; Some 1%Z; Some 2%Z; None; Some (-1)%Z].
+  Proof. vm_compute. reflexivity. Qed.
+  (* ... and a sequence of generated commits and discards on it: roll back to log 1, commit twice, roll back to log 2 *)
+  Example example_hist_steps :
+    option_map (map (lprev unit unit unit Hh unit unit unit))
+      (src_hist_steps unit unit unit Hh unit unit unit 0 hf hist
+         [HDiscard unit unit unit unit unit unit 1; HCommit unit unit unit unit unit unit (Console unit unit tt) [] None;
+          HCommit unit unit unit unit unit unit (Console unit unit tt) [] None; HDiscard unit unit unit unit unit unit 2])
+    = Some [0; 1; 2].
   Proof. vm_compute. reflexivity. Qed.
 End Example.
